@@ -273,10 +273,38 @@ impl Prop for C14 {
         // with every leaf (text and position inside the input buffer) must be those of a fresh
         // parser, which were checked above
         {
-            let texts: Vec<&str> = fresh.iter().map(|x| x.0.as_str()).collect();
-            for (k, item) in dynp::lr_parse_session(&texts, RunOpts::default(), LR_STEPS * 4).into_iter().enumerate() {
+            // a rejected input (the first half of the sentence followed by a foreign character) goes
+            // in front of every second sentence: what a failed parse leaves behind in the parser
+            // object must not show up in the next tree
+            let broken: Vec<String> = fresh
+                .iter()
+                .map(|x| {
+                    let cut = (0..=x.0.len() / 2).rev().find(|i| x.0.is_char_boundary(*i)).unwrap_or(0);
+                    format!("{}\u{1}", &x.0[..cut])
+                })
+                .collect();
+            let mut texts: Vec<&str> = vec![];
+            let mut origin: Vec<Option<usize>> = vec![];
+            for (k, x) in fresh.iter().enumerate() {
+                if k % 2 == 1 {
+                    texts.push(broken[k].as_str());
+                    origin.push(None);
+                }
+                texts.push(x.0.as_str());
+                origin.push(Some(k));
+            }
+            for (j, item) in dynp::lr_parse_session(&texts, RunOpts::default(), LR_STEPS * 4).into_iter().enumerate() {
+                let k = match origin[j] {
+                    Some(k) => k,
+                    None => {
+                        if let Err(p) = item {
+                            return panic_outcome(&format!("reused-parser|parse|{mode}"), &p);
+                        }
+                        continue;
+                    }
+                };
                 st.sub();
-                let ctx = || format!("grammar:\n{text}\none parser instance parsed, in order: {:?}\ninput #{k}: {:?}", &texts[..=k], texts[k]);
+                let ctx = || format!("grammar:\n{text}\none parser instance parsed, in order: {:?}\ninput #{j}: {:?}", &texts[..=j], texts[j]);
                 match item {
                     Err(p) => return panic_outcome(&format!("reused-parser|parse|{mode}"), &p),
                     Ok(Err(e)) => {
